@@ -229,7 +229,9 @@ CHECKS = {
               # unbounded number of requests: inductive invariant discharged symbolically
               dict(apalache="VanityInd", tag="VanityInd_N3", cinit="ConstInit", init="Init", indinit="IndInit", inv="IndInv"),
               dict(apalache="VanityInd", tag="VanityInd_N6", cinit="ConstInit6", init="Init", indinit="IndInit", inv="IndInv",
-                   tiers=("thorough",))],
+                   tiers=("thorough",)),
+              # every number of workers, every candidate space, unbounded requests: machine-checked proof
+              dict(tlaps="VanityProof", tag="VanityProof")],
         gen=[dict(module="Gen_C18", slices=dict(quick=8, thorough=8), profiles=dict(quick=["dev"], thorough=["dev", "release"])),
              SCHED_FULL],
         rule="MC_Vanity: all interleavings of main + N in 0..3 (thorough: 0..4) workers + channel + granting/refusing entropy environment "
@@ -237,7 +239,9 @@ CHECKS = {
              "granted match, the judge's observer fold admits every behaviour (no false alarm), pending messages lead "
              "to exit (liveness under weak fairness); Apalache discharges the inductive invariant VanityInd!IndInv (Init => Inv, "
              "Inv /\\ Next => Inv') for 3 (thorough: 6) workers WITHOUT a bound on the number of requests: a printed phrase is a "
-             "granted match in every reachable state; MC_Prefix: prefix grammar over all strings <= 4 over "
+             "granted match in every reachable state; TLAPS checks a proof (spec/tlaps/VanityProof.tla, 106 obligations) of "
+             "the same safety property and of 'nothing is printed unless the run exits through printed' for EVERY number of "
+             "workers and candidates; MC_Prefix: prefix grammar over all strings <= 4 over "
              "{0..9 a f A F g x}; Gen_C18: real searches under the entropy shim: 22 single digits x -j {0,1,2,16}, "
              "two-digit (three-digit thorough) prefixes in lower/upper/mixed case, vanity password/index/path/length "
              "variants, repetitions, non-hex prefixes and unusable selectors; Gen_C18sched (spec -> implementation): the "
